@@ -372,6 +372,15 @@ theorem der_writer_output_parses (buf : List Nat) (ops : List Op) (ns : List Nod
     ∃ w out, (W.new buf).run ops = .ok w ∧ w.asSlice = .ok out ∧ parseAll out = some ds :=
   parse_run_balanced buf ops ns ds hb hh hl hfit ht hd
 
+/-- BIT STRING of named bits (`bitstr(truncate = true, s)`, the key-usage extension): unused-bits byte followed by
+`s` without its trailing zero bytes; what is kept does not end in a zero byte, the count is the number of trailing
+zero bits of the last kept byte (0 for the empty string); what is cut is zeros -/
+theorem der_bitstr_named_bits (s : List Nat) :
+    ∃ k u, k ≤ s.length ∧ bitstrContent true s = u :: s.take k ∧ (∀ i, k ≤ i → i < s.length → s[i]? = some 0) ∧
+      (k = 0 → u = 0) ∧ (0 < k → ∃ x, s[k - 1]? = some x ∧ x ≠ 0 ∧ u = tz 8 x) :=
+  bitstrContent_true_spec s
+example : bitstrContent true [0x06, 0x00] = [1, 0x06] := by decide
+
 /-- a buffer below 64 KiB that is large enough makes every length encodable -/
 theorem der_lengths_fit (ns : List Node) (h : Node.needL ns < 65536) : Node.lenOkL ns := lenOkL_of_needL ns h
 
